@@ -24,7 +24,7 @@ def run(ctx) -> None:
     ctx.assumptions += ["the enumerated line kinds and operand forms are what objdump -d -M att prints (documented syntax)",
                         "tokens never contain the structural characters ( ) , $ % < > # : blank TAB"]
     ctx.analysed_fn("LineParser.parse", "LineParser.parse_instruction", "LineParser.parse_instruction_no_operands",
-                    "LineParser.parse_nop_padding", "OperandsParser._process_operand_elem", "ObjdumpParserManual.parse",
+                    "LineParser.parse_nop_padding", "OperandsParser.parse (one operand)", "ObjdumpParserManual.parse",
                     "parse_file_lines", "RemoveEmptyInstructions.observe_instruction")
     I = make_interp(ctx.p)
     shapes.line_record_rule(ctx, I, "C08.K1.instruction-line-gives-one-instruction")
